@@ -1,7 +1,7 @@
 (* C10 -- the overlay shows the overlayfs union of its layers and never modifies lowers.
    Only statements, closed by [exact]; proofs live in Proofs/Overlay*.v. *)
 From Coq Require Import List String NArith Bool.
-From FB Require Import Model.Overlay Proofs.OverlayInv Proofs.OverlayScan Proofs.OverlayRestart Proofs.OverlayReadOnly Proofs.OverlayCoh Proofs.OverlayCohView Proofs.OverlayCohOps Proofs.OverlayCohSteps Proofs.OverlayRefineTeq Proofs.OverlayRefineMerge Proofs.OverlayRefineRun Proofs.OverlayRefine Proofs.OverlayRefineWh Proofs.OverlayRefineCu Proofs.OverlayRefineCuFile Proofs.OverlayRefineLink Proofs.OverlayRefineRmdir Proofs.OverlayRefineDirAttr Proofs.OverlayRefineCuRm Proofs.OverlayRefineAll Proofs.OverlayRefineFail.
+From FB Require Import Model.Overlay Proofs.OverlayInv Proofs.OverlayRoot Proofs.OverlayScan Proofs.OverlayRestart Proofs.OverlayReadOnly Proofs.OverlayCoh Proofs.OverlayCohView Proofs.OverlayCohOps Proofs.OverlayCohSteps Proofs.OverlayRefineTeq Proofs.OverlayRefineMerge Proofs.OverlayRefineRun Proofs.OverlayRefine Proofs.OverlayRefineWh Proofs.OverlayRefineCu Proofs.OverlayRefineCuFile Proofs.OverlayRefineLink Proofs.OverlayRefineRmdir Proofs.OverlayRefineDirAttr Proofs.OverlayRefineCuRm Proofs.OverlayRefineAll Proofs.OverlayRefineFail Proofs.OverlayRefineRead Proofs.OverlayRefineFail2 Proofs.OverlayRefineRerun Proofs.OverlayRefineDirAttr2 Proofs.OverlayRefineRmdirLow Proofs.OverlayRefineCuWh Proofs.OverlayRefineSymlink Proofs.OverlayRefineLinkCu Proofs.OverlayRefineLinkFile.
 Import ListNotations.
 Local Open Scope string_scope.
 Local Open Scope N_scope.
@@ -326,7 +326,8 @@ Proof.
   repeat (first [apply Forall_cons | apply Forall_nil | split | apply wf_dir | apply wf_file | apply wf_lnk | apply wf_wh
                 | apply NoDup_cons | apply NoDup_nil | (cbn; intuition discriminate) | reflexivity ]).
 Qed.
-(* All fragments proved on [teq] as one statement: [refinable s o = direct || direct_wh || direct_cu || direct_link || direct_rmdir_merged || direct_dattr || direct_cu_rm], and in the
+(* All fragments proved on [teq] as one statement: [refinable s o] = the disjunction of [direct], [direct_wh], [direct_cu], [direct_link], [direct_rmdir_merged], [direct_dattr], [direct_cu_rm],
+   [direct_dattr_more], [direct_rmdir_low], [direct_cu_wh], [direct_symlink], [direct_link_cu], [readable], [invisible], [exists_target], [rmdir_fails], [fails_more] (Proofs/OverlayRefineAll.v), and in the
    form of C10_op_refines_full after any history over [coh_op]: the full refinement statement holds for every operation that
    satisfies [refinable] in the state reached (C10_op_refines_copyup_file adds the lower-file operations, on [ser]). *)
 Theorem C10_op_refines_fragments : forall s o v, Coherent s -> refinable s o = true -> view (load_all s) = Some v ->
@@ -396,6 +397,242 @@ Example C10_op_refines_failing_nonvacuous :
   forallb (fun o => negb (invisible s o) && negb (exists_target s o)) [OMkdir ["d"; "n"] 493; OUnlink ["d"; "f"]; OMkdir ["d"; "w"] 493; OMkdir ["x"] 493] = true /\
   forallb (rmdir_fails s) [ORmdir ["d"]; ORmdir ["d"; "f"]; ORmdir ["d"; "o"]] = true /\ rmdir_fails s (ORmdir ["z"]) = false /\
   fst (step (ORmdir ["d"]) s) = Err ENOTEMPTY /\ fst (step (ORmdir ["d"; "o"]) s) = Err ENOTDIR.
+Proof.
+  cbv zeta. split; [|vm_compute; repeat split; reflexivity].
+  apply load_all_coherent. apply fresh_coherent.
+  repeat (first [apply Forall_cons | apply Forall_nil | split | apply wf_dir | apply wf_file | apply wf_lnk | apply wf_wh
+                | apply NoDup_cons | apply NoDup_nil | (cbn; intuition discriminate) | reflexivity ]).
+Qed.
+(* (c) for the READ-ONLY operations, answers included (Proofs/OverlayRefineRead.v).  C10_op_refines_partial above needs no invariant but
+   says nothing about result codes and payloads; in a COHERENT state every read-only operation - lookup, getattr, readdir, read,
+   readlink, open with a read-only flag word, getxattr, listxattr - answers exactly as the ordinary file system does on the client's
+   view (error code or payload: kind and size, sorted entry names, bytes read, link target, attribute value, attribute names), on
+   visible and on invisible paths, and changes neither the view nor any layer.  [ro_bounds]: the path is shorter than DEPTH (READDIR:
+   by two), LOOKUP is not of the empty path (the harness never sends it; the model answers EINVAL where the specification has the
+   root), GETXATTR is not of one of the overlay's three opaque markers (the overlay hands the marker of the backing directory
+   through, the union hides it: Example below).  [readable] is the visible-path half (LOOKUP: parent visible, name visible or not). *)
+Theorem C10_op_refines_readonly : forall s o v, Coherent s -> readonly_op o = true -> ro_bounds o = true -> view (load_all s) = Some v ->
+  (  let spec := fs_apply o (mkFs v (next_ino s)) in
+  res_same (fst (step o s)) (fst spec) /\
+  oteq (view (load_all (run_op o s))) (Some (f_tree (snd spec))) /\
+  lowers (run_op o s) = lowers s) /\ upper (run_op o s) = upper s.
+Proof. exact op_refines_readonly. Qed.
+Theorem C10_op_refines_readable : forall s o v, Coherent s -> readable s o = true -> view (load_all s) = Some v ->
+  (  let spec := fs_apply o (mkFs v (next_ino s)) in
+  res_same (fst (step o s)) (fst spec) /\
+  oteq (view (load_all (run_op o s))) (Some (f_tree (snd spec))) /\
+  lowers (run_op o s) = lowers s) /\ upper (run_op o s) = upper s.
+Proof. exact op_refines_readable. Qed.
+Example C10_op_refines_readonly_nonvacuous :
+  let u := Dir 493 [] [("d", Dir 493 [("user.a", [1]); ("user.overlay.opaque", [110])] [("f", File 5 420 [104] [("user.b", [2])]); ("w", Wh); ("e", Dir 448 [] [])]); ("x", Wh); ("g", Lnk [97])] in
+  let l := Dir 493 [] [("d", Dir 448 [] [("o", File 2 420 [111] []); ("w", File 3 420 [] []); ("e", Dir 448 [] [("y", File 4 420 [] [])])]);
+                       ("x", Dir 493 [] [("y", File 6 420 [] [])]); ("z", Dir 493 [] [("l", Lnk [98]); ("h", File 7 420 [1; 2; 3] [])])] in
+  let s := load_all (fresh (Some u) [l] 1000) in
+  let ros := [OLookup ["d"; "f"]; OLookup ["d"; "w"]; OLookup ["z"; "q"]; OGetattr ["d"; "f"]; OGetattr []; OReaddir ["d"]; OReaddir []; OReaddir ["d"; "f"];
+              ORead ["z"; "h"] 1 5; ORead ["d"] 0 1; ORead ["g"] 0 1; OReadlink ["z"; "l"]; OReadlink ["d"]; OOpen ["d"; "o"] OF_R; OOpen ["d"] OF_R; OOpen ["g"] OF_R;
+              OGetxattr ["d"] "user.a"; OGetxattr ["d"; "f"] "user.q"; OListxattr ["d"]; OListxattr ["g"]] in
+  let spec_ans o := match view s with Some v => fst (fs_apply o (mkFs v 1000)) | None => Err 0 end in
+  Coherent s /\
+  forallb (readable s) ros = true /\ forallb (fun o => readonly_op o && ro_bounds o && negb (readable s o)) [OGetattr ["x"; "y"]; OLookup ["x"; "y"]; OReaddir ["d"; "w"]] = true /\
+  map (fun o => fst (step o s)) ros =
+    [Ok "f1a4"; Err 2; Err 2; Ok "f1a4:1"; Ok "d1ed:0"; Ok "e,f,o"; Ok "d,g,z"; Err 20; Ok "0203"; Err 21; Err 9; Ok "62"; Err 22; Ok ""; Ok ""; Err 9;
+     Ok "01"; Err 61; Ok "user.a"; Ok ""] /\
+  (* the two excluded requests really differ *)
+  fst (step (OGetxattr ["d"] "user.overlay.opaque") s) = Ok "6e" /\ spec_ans (OGetxattr ["d"] "user.overlay.opaque") = Err ENODATA /\
+  fst (step (OLookup []) s) = Err EINVAL /\ spec_ans (OLookup []) = Ok "d1ed".
+Proof.
+  cbv zeta. split; [|vm_compute; repeat split; reflexivity].
+  apply load_all_coherent. apply fresh_coherent.
+  repeat (first [apply Forall_cons | apply Forall_nil | split | apply wf_dir | apply wf_file | apply wf_lnk | apply wf_wh
+                | apply NoDup_cons | apply NoDup_nil | (cbn; intuition discriminate) | reflexivity ]).
+Qed.
+(* (c), MORE FAILING operations (Proofs/OverlayRefineFail2.v), [fails_more s o]; the layers and the view stay as they are:
+     - MKDIR / CREATE / MKNOD / SYMLINK / LINK below a regular file or symlink of the upper layer: ENOTDIR (the host call refuses; for
+       LINK the source is a regular file or symlink of the upper layer too);
+     - LINK whose source is a visible DIRECTORY (any layer), new parent visible: EPERM;
+     - UNLINK of a directory that the upper layer holds: EISDIR (the host call refuses);
+     - RENAME with a visible first parent: EXDEV when the second parent is visible too, else ENOENT (the overlay implements no rename).
+   Same statement as C10_op_refines_enoent, with the error the ordinary file system gives. *)
+Theorem C10_op_refines_fails_more : forall s o v, Coherent s -> fails_more s o = true -> view (load_all s) = Some v ->
+  (  let spec := fs_apply o (mkFs v (next_ino s)) in
+  res_same (fst (step o s)) (fst spec) /\
+  oteq (view (load_all (run_op o s))) (Some (f_tree (snd spec))) /\
+  lowers (run_op o s) = lowers s) /\
+  (exists e, fst (step o s) = Err e) /\ upper (run_op o s) = upper s.
+Proof. exact op_refines_fails_more. Qed.
+(* ... and two classes where the faithful model and the ordinary file system DISAGREE; both witnesses were replayed on the real
+   OverlayFs through the harness with the same results (notes/C10.md).  They are requests the kernel's FUSE client never sends
+   (it resolves the parent itself and answers ENOTDIR; it sends RMDIR, not UNLINK, for directories), so the harness generator excludes
+   them; a raw-protocol client (virtiofs guest) can send them.
+   (1) UNLINK / RMDIR below a regular file or symlink: ENOENT instead of ENOTDIR - lookup_node finds no child in the (empty) child
+       table of the non-directory.
+   (2) UNLINK of a directory that only lower layers hold SUCCEEDS and hides the whole directory behind a whiteout, entries included
+       (do_rm has no type check of its own; the upper layer, which would refuse, is not asked because it has nothing to unlink).
+   Hence the refinement statement for ALL operations of all coherent states is refuted outside the xattr class as well. *)
+Theorem C10_unlink_below_nondir_disagrees :
+  exists v, view (load_all WS1) = Some v /\
+    fst (step (OUnlink ["f"; "x"]) WS1) = Err ENOENT /\ fst (fs_apply (OUnlink ["f"; "x"]) (mkFs v (next_ino WS1))) = Err ENOTDIR /\
+    fst (step (ORmdir ["g"; "x"]) WS1) = Err ENOENT /\ fst (fs_apply (ORmdir ["g"; "x"]) (mkFs v (next_ino WS1))) = Err ENOTDIR.
+Proof. exact unlink_below_nondir_disagrees. Qed.
+Theorem C10_unlink_lower_dir_disagrees :
+  exists v, view (load_all WS1) = Some v /\
+    fst (step (OUnlink ["e"]) WS1) = Ok "" /\ fst (fs_apply (OUnlink ["e"]) (mkFs v (next_ino WS1))) = Err EISDIR /\
+    upper (run_op (OUnlink ["e"]) WS1) = Some (Dir 493 [] [("f", File 1 420 [104] []); ("d", Dir 493 [] []); ("e", Wh)]).
+Proof. exact unlink_lower_dir_disagrees. Qed.
+Theorem C10_refines_everywhere_refuted : ~ refines_everywhere.
+Proof. exact refines_everywhere_refuted. Qed.
+Example C10_op_refines_fails_more_nonvacuous :
+  let u := Dir 493 [] [("d", Dir 493 [] [("f", File 5 420 [104] []); ("e", Dir 448 [] [])]); ("x", Wh); ("g", Lnk [97])] in
+  let l := Dir 493 [] [("d", Dir 448 [] [("o", File 2 420 [111] [])]); ("x", Dir 493 [] [("y", File 6 420 [] [])]); ("z", Dir 493 [] [("h", File 7 420 [1] [])])] in
+  let s := load_all (fresh (Some u) [l] 1000) in
+  let fm := [OMkdir ["d"; "f"; "n"] 493; OCreate ["g"; "c"] 420; OSymlink ["d"; "f"; "k"] [1]; OMknod ["g"; "c"] 420; OLink ["d"; "f"] ["g"; "n"]; OLink ["d"] ["n"];
+             OLink ["z"] ["d"; "f"; "n"]; OLink ["d"; "e"] ["z"; "n"]; OUnlink ["d"]; OUnlink ["d"; "e"]; ORename ["d"; "f"] ["z"; "n"]; ORename ["d"; "f"] ["q"; "n"]; ORename ["z"; "h"] ["n"]] in
+  Coherent s /\ Coherent WS1 /\
+  forallb (fails_more s) fm = true /\
+  map (fun o => fst (step o s)) fm = [Err 20; Err 20; Err 20; Err 20; Err 20; Err 1; Err 1; Err 1; Err 21; Err 21; Err 18; Err 2; Err 18] /\
+  forallb (fun o => negb (fails_more s o)) [OUnlink ["z"]; OUnlink ["d"; "f"]; OMkdir ["z"; "h"; "n"] 493; OLink ["q"] ["n"]; ORename ["q"; "a"] ["b"]; OMkdir ["d"; "n"] 493] = true.
+Proof.
+  cbv zeta. split; [|split; [exact WS1_coherent|vm_compute; repeat split; reflexivity]].
+  apply load_all_coherent. apply fresh_coherent.
+  repeat (first [apply Forall_cons | apply Forall_nil | split | apply wf_dir | apply wf_file | apply wf_lnk | apply wf_wh
+                | apply NoDup_cons | apply NoDup_nil | (cbn; intuition discriminate) | reflexivity ]).
+Qed.
+(* (c) for DIRECTORIES once more (Proofs/OverlayRefineDirAttr2.v), [direct_dattr_more]: CHMOD / SETXATTR / REMOVEXATTR (not an opaque marker) /
+   OPEN for writing / WRITE / TRUNCATE of the ROOT, and of a visible directory that the upper layer does not hold: the chain of
+   directories - the target included - is copied up first (hypothesis [cu_okb]: no user xattrs, mode within 01777; with a user xattr the
+   statement is false, Example), then the upper copy is changed.  Proved by re-running (Proofs/OverlayRefineRerun.v): from the state
+   after the copy-up the operation runs exactly as from the start - its walk and lookups only read the cache ([walk_noop]), its
+   copy-up is a no-op - and there C10_op_refines_dattr applies; the copy-up itself leaves the union alone. *)
+Theorem C10_op_refines_dattr_more : forall s o v, Coherent s -> direct_dattr_more s o = true -> view (load_all s) = Some v ->
+  let spec := fs_apply o (mkFs v (next_ino s)) in
+  res_same (fst (step o s)) (fst spec) /\
+  oteq (view (load_all (run_op o s))) (Some (f_tree (snd spec))) /\
+  lowers (run_op o s) = lowers s.
+Proof. exact op_refines_dattr_more. Qed.
+(* (c) for RMDIR of a directory that only lower layers hold (parent in the upper layer) and that shows no entry because lower
+   whiteouts hide what lower directories hold ([direct_rmdir_low], Proofs/OverlayRefineRmdirLow.v): nothing is emptied, a whiteout is written. *)
+Theorem C10_op_refines_rmdir_low : forall s o v, Coherent s -> direct_rmdir_low s o = true -> view (load_all s) = Some v ->
+  let spec := fs_apply o (mkFs v (next_ino s)) in
+  res_same (fst (step o s)) (fst spec) /\
+  oteq (view (load_all (run_op o s))) (Some (f_tree (snd spec))) /\
+  lowers (run_op o s) = lowers s.
+Proof. exact op_refines_rmdir_low. Qed.
+(* (c) BELOW A DIRECTORY THAT IS COPIED UP FIRST ([direct_cu_wh], Proofs/OverlayRefineCuWh.v; parent visible, not in the upper layer, chain
+   within [cu_okb]): MKDIR / CREATE / MKNOD / SYMLINK over a (lower) whiteout, and RMDIR of a directory that shows no entry.  By
+   re-running, from C10_op_refines_whiteout and C10_op_refines_rmdir_low. *)
+Theorem C10_op_refines_cu_wh : forall s o v, Coherent s -> direct_cu_wh s o = true -> view (load_all s) = Some v ->
+  let spec := fs_apply o (mkFs v (next_ino s)) in
+  res_same (fst (step o s)) (fst spec) /\
+  oteq (view (load_all (run_op o s))) (Some (f_tree (snd spec))) /\
+  lowers (run_op o s) = lowers s.
+Proof. exact op_refines_cu_wh. Qed.
+Example C10_op_refines_dir_more_nonvacuous :
+  let u := Dir 493 [("user.r", [7])] [("d", Dir 493 [] [("w", Wh)]); ("f", File 1 420 [] [])] in
+  let la := Dir 493 [] [("d", Dir 448 [] [("w", Dir 493 [] [("k", File 3 420 [] [])])]); ("z", Dir 493 [] [("a", Wh); ("q", Dir 448 [] [("b", Wh)]); ("e", Dir 493 [] [])]);
+                        ("y", Dir 493 [("user.k", [1])] [("a", Wh)]); ("h", Dir 493 [] [("a", Wh); ("b", Wh)])] in
+  let lb := Dir 493 [] [("z", Dir 493 [] [("a", File 8 420 [] []); ("q", Dir 448 [] [("b", File 9 420 [1] [])])]);
+                        ("h", Dir 493 [] [("a", File 10 420 [] []); ("b", Dir 493 [] [("c", File 11 420 [] [])])]); ("y", Dir 493 [] [("a", File 12 420 [] [])])] in
+  let s := load_all (fresh (Some u) [la; lb] 1000) in
+  let fails o := match view s with
+                 | Some v => negb (String.eqb (ser_opt (view (load_all (run_op o s)))) (ser SER (f_tree (snd (fs_apply o (mkFs v 1000))))))
+                 | None => false end in
+  Coherent s /\
+  ser_opt (view s) = "d1ed[user.r=07,](d=d1ed(),f=f1a4:,h=d1ed(),y=d1ed[user.k=01,](),z=d1ed(e=d1ed(),q=d1c0(),),)" /\
+  forallb (direct_dattr_more s) [OChmod [] 448; OSetxattr [] "user.k" [1]; ORemovexattr [] "user.r"; ORemovexattr [] "user.q"; OChmod ["z"] 448; OSetxattr ["z"; "q"] "user.k" [1];
+                                 ORemovexattr ["z"] "user.q"; OWrite ["z"] 0 [1]; OTruncate ["z"; "e"] 0; OOpen ["h"] OF_W; OWrite [] 0 [1]] = true /\
+  forallb (fun o => negb (direct_dattr_more s o)) [OChmod ["y"] 448; OChmod ["d"] 448; OChmod ["f"] 448; OSetxattr [] "user.overlay.opaque" [121]; OOpen [] OF_R; OChmod ["q"] 448] = true /\
+  fails (OChmod ["y"] 448) = true /\
+  upper (run_op (OChmod ["z"; "q"] 448) s) = Some (Dir 493 [("user.r", [7])] [("d", Dir 493 [] [("w", Wh)]); ("f", File 1 420 [] []); ("z", Dir 493 [] [("q", Dir 448 [] [])])]) /\
+  forallb (direct_rmdir_low s) [ORmdir ["h"]; ORmdir ["y"]] = true /\ forallb (fun o => negb (direct_rmdir_low s o)) [ORmdir ["z"]; ORmdir ["d"]; ORmdir ["z"; "q"]] = true /\
+  upper (run_op (ORmdir ["h"]) s) = Some (Dir 493 [("user.r", [7])] [("d", Dir 493 [] [("w", Wh)]); ("f", File 1 420 [] []); ("h", Wh)]) /\
+  forallb (direct_cu_wh s) [OMkdir ["z"; "a"] 493; OCreate ["z"; "a"] 420; OSymlink ["z"; "q"; "b"] [1]; OMknod ["h"; "b"] 420; ORmdir ["z"; "q"]; ORmdir ["z"; "e"]] = true /\
+  forallb (fun o => negb (direct_cu_wh s o)) [OMkdir ["y"; "a"] 493; OMkdir ["d"; "w"] 493; OMkdir ["z"; "n"] 493; ORmdir ["h"]; ORmdir ["z"]] = true /\
+  fails (OMkdir ["y"; "a"] 493) = true /\
+  upper (run_op (OMkdir ["z"; "a"] 493) s) = Some (Dir 493 [("user.r", [7])] [("d", Dir 493 [] [("w", Wh)]); ("f", File 1 420 [] []);
+                                                       ("z", Dir 493 [] [("a", Dir 493 [("user.fuseoverlayfs.opaque", [121])] [])])]) /\
+  upper (run_op (ORmdir ["z"; "q"]) s) = Some (Dir 493 [("user.r", [7])] [("d", Dir 493 [] [("w", Wh)]); ("f", File 1 420 [] []); ("z", Dir 493 [] [("q", Wh)])]).
+Proof.
+  cbv zeta. split; [|vm_compute; repeat split; reflexivity].
+  apply load_all_coherent. apply fresh_coherent.
+  repeat (first [apply Forall_cons | apply Forall_nil | split | apply wf_dir | apply wf_file | apply wf_lnk | apply wf_wh
+                | apply NoDup_cons | apply NoDup_nil | (cbn; intuition discriminate) | reflexivity ]).
+Qed.
+(* (c) for SYMLINKS ([direct_symlink], Proofs/OverlayRefineSymlink.v): CHMOD / TRUNCATE / WRITE / OPEN with a flag word that is not read-only /
+   SETXATTR / REMOVEXATTR (not an opaque marker) of a visible path whose first candidate is a symlink.  They fail - EOPNOTSUPP, EBADF, EBADF,
+   EBADF, EOPNOTSUPP, ENODATA - on both sides; when only lower layers hold the symlink the overlay has copied it up by then (and its
+   missing parent directories, [cu_okb]), which leaves the view as it is: a symlink on top of the same symlink ([symlink_up_merge]).
+   Symlinks carry no identity, so the statement is on [teq]. *)
+Theorem C10_op_refines_symlink : forall s o v, Coherent s -> direct_symlink s o = true -> view (load_all s) = Some v ->
+  let spec := fs_apply o (mkFs v (next_ino s)) in
+  res_same (fst (step o s)) (fst spec) /\
+  oteq (view (load_all (run_op o s))) (Some (f_tree (snd spec))) /\
+  lowers (run_op o s) = lowers s.
+Proof. exact op_refines_symlink. Qed.
+(* (c) for LINK WITH COPY-UP ([direct_link_cu], Proofs/OverlayRefineLinkCu.v), new name without candidates: (a) source = regular file or
+   symlink of the upper layer, new parent = visible directory that the upper layer does not hold (chain within [cu_okb]); (b) source = a
+   symlink that only lower layers hold (it is copied up), new parent = directory of the upper layer.  By re-running, from
+   C10_op_refines_link.  Not covered: a lower regular file as source (fresh identity of the copy). *)
+Theorem C10_op_refines_link_cu : forall s o v, Coherent s -> direct_link_cu s o = true -> view (load_all s) = Some v ->
+  let spec := fs_apply o (mkFs v (next_ino s)) in
+  res_same (fst (step o s)) (fst spec) /\
+  oteq (view (load_all (run_op o s))) (Some (f_tree (snd spec))) /\
+  lowers (run_op o s) = lowers s.
+Proof. exact op_refines_link_cu. Qed.
+Example C10_op_refines_symlink_nonvacuous :
+  let u := Dir 493 [] [("d", Dir 493 [] [("f", File 5 420 [104] []); ("k", Lnk [97])])] in
+  let l := Dir 493 [] [("d", Dir 448 [] [("l", Lnk [98]); ("o", File 2 420 [111] [])]); ("z", Dir 493 [] [("e", Dir 448 [] [("m", Lnk [99; 100])])]);
+                       ("y", Dir 493 [("user.k", [1])] [("m", Lnk [101])])] in
+  let s := load_all (fresh (Some u) [l] 1000) in
+  let fails o := match view s with
+                 | Some v => negb (String.eqb (ser_opt (view (load_all (run_op o s)))) (ser SER (f_tree (snd (fs_apply o (mkFs v 1000))))))
+                 | None => false end in
+  let sy := [OChmod ["d"; "k"] 384; OChmod ["d"; "l"] 384; OTruncate ["z"; "e"; "m"] 0; OWrite ["d"; "l"] 0 [1]; OOpen ["z"; "e"; "m"] OF_W; OSetxattr ["d"; "l"] "user.a" [1];
+             ORemovexattr ["z"; "e"; "m"] "user.a"; OOpen ["d"; "k"] OF_RW] in
+  let lc := [OLink ["d"; "f"] ["z"; "n"]; OLink ["d"; "k"] ["z"; "e"; "n"]; OLink ["d"; "l"] ["n"]; OLink ["z"; "e"; "m"] ["d"; "n"]] in
+  Coherent s /\
+  forallb (direct_symlink s) sy = true /\ map (fun o => fst (step o s)) sy = [Err 95; Err 95; Err 9; Err 9; Err 9; Err 95; Err 61; Err 9] /\
+  forallb (fun o => negb (direct_symlink s o)) [OChmod ["y"; "m"] 384; OChmod ["d"; "f"] 384; OOpen ["d"; "l"] OF_R; OSetxattr ["d"; "l"] "user.overlay.opaque" [121]; OChmod ["d"; "q"] 384] = true /\
+  fails (OChmod ["y"; "m"] 384) = true /\
+  upper (run_op (OTruncate ["z"; "e"; "m"] 0) s) = Some (Dir 493 [] [("d", Dir 493 [] [("f", File 5 420 [104] []); ("k", Lnk [97])]); ("z", Dir 493 [] [("e", Dir 448 [] [("m", Lnk [99; 100])])])]) /\
+  forallb (direct_link_cu s) lc = true /\ map (fun o => fst (step o s)) lc = [Ok "f1a4"; Ok "l1ff"; Ok "l1ff"; Ok "l1ff"] /\
+  forallb (fun o => negb (direct_link_cu s o)) [OLink ["d"; "f"] ["n"]; OLink ["d"; "o"] ["n"]; OLink ["d"; "l"] ["z"; "n"]; OLink ["d"; "f"] ["y"; "n"]; OLink ["y"; "m"] ["n"]; OLink ["d"; "f"] ["d"; "o"]] = true /\
+  fails (OLink ["d"; "f"] ["y"; "n"]) = true /\ fails (OLink ["y"; "m"] ["n"]) = true /\
+  ser_opt (view (load_all (run_op (OLink ["z"; "e"; "m"] ["d"; "n"]) s))) = "d1ed(d=d1ed(f=f1a4:68,k=l:61,l=l:62,n=l:6364,o=f1a4:6f,),y=d1ed[user.k=01,](m=l:65,),z=d1ed(e=d1c0(m=l:6364,),),)" /\
+  forallb (refinable s) (sy ++ lc) = true.
+Proof.
+  cbv zeta. split; [|vm_compute; repeat split; reflexivity].
+  apply load_all_coherent. apply fresh_coherent.
+  repeat (first [apply Forall_cons | apply Forall_nil | split | apply wf_dir | apply wf_file | apply wf_lnk | apply wf_wh
+                | apply NoDup_cons | apply NoDup_nil | (cbn; intuition discriminate) | reflexivity ]).
+Qed.
+(* (c) for LINK OF A REGULAR FILE THAT ONLY LOWER LAYERS HOLD ([direct_link_file], [ids_ok_link]; Proofs/OverlayRefineLinkFile.v): the new parent is a
+   directory of the upper layer, the new name has no candidate.  The overlay copies the file up (fresh identity; missing parent directories
+   first, [cu_okb]) and links the copy: both names then show the fresh identity where the ordinary file system shows the old one, so - as
+   for C10_op_refines_copyup_file and under the same hypotheses (no user xattrs on the lower file: with one the statement is false, Example;
+   mode within 07777; fresh identity unused; the file's identity shown at its path only) - the views agree UP TO FILE IDENTITIES: equal
+   serialisations.  Proof: re-run from the state after the copy-up, C10_op_refines_link there, and the two result trees differ by renaming
+   one identity ([tmap_ino] with [reid], invisible to [ser]: [seqs_tmap_reid]). *)
+Theorem C10_op_refines_link_file : forall s o v, Coherent s -> direct_link_file s o = true -> view (load_all s) = Some v ->
+  ids_ok_link s o v = true ->
+  let spec := fs_apply o (mkFs v (next_ino s)) in
+  res_same (fst (step o s)) (fst spec) /\ ser_opt (view (load_all (run_op o s))) = ser SER (f_tree (snd spec)) /\
+  lowers (run_op o s) = lowers s.
+Proof. exact op_refines_link_file. Qed.
+Example C10_op_refines_link_file_nonvacuous :
+  let u := Dir 493 [] [("d", Dir 493 [] [("f", File 5 420 [104] []); ("k", Lnk [97])])] in
+  let l := Dir 493 [] [("d", Dir 448 [] [("l", Lnk [98]); ("o", File 2 420 [111] [])]); ("z", Dir 493 [] [("e", Dir 448 [] [("g", File 8 416 [1] [])])]);
+                       ("h1", File 9 420 [2] []); ("h2", File 9 420 [2] []); ("x", File 10 420 [3] [("user.a", [1])])] in
+  let s := load_all (fresh (Some u) [l] 1000) in
+  let ok o := match view s with Some v => direct_link_file s o && ids_ok_link s o v | None => false end in
+  let fails o := match view s with
+                 | Some v => negb (String.eqb (ser_opt (view (load_all (run_op o s)))) (ser SER (f_tree (snd (fs_apply o (mkFs v 1000))))))
+                 | None => false end in
+  Coherent s /\
+  forallb ok [OLink ["d"; "o"] ["n"]; OLink ["z"; "e"; "g"] ["d"; "n"]; OLink ["d"; "o"] ["d"; "n"]] = true /\
+  forallb (fun o => negb (ok o)) [OLink ["h1"] ["n"]; OLink ["x"] ["n"]; OLink ["d"; "f"] ["n"]; OLink ["d"; "o"] ["z"; "n"]; OLink ["d"; "o"] ["d"; "f"]] = true /\
+  fails (OLink ["x"] ["n"]) = true /\
+  upper (run_op (OLink ["z"; "e"; "g"] ["d"; "n"]) s) =
+    Some (Dir 493 [] [("d", Dir 493 [] [("f", File 5 420 [104] []); ("k", Lnk [97]); ("n", File 1000 416 [1] [])]); ("z", Dir 493 [] [("e", Dir 448 [] [("g", File 1000 416 [1] [])])])]).
 Proof.
   cbv zeta. split; [|vm_compute; repeat split; reflexivity].
   apply load_all_coherent. apply fresh_coherent.
@@ -512,6 +749,37 @@ Example C10_no_upper_nonvacuous :
   Inv false (fresh None [l] 1000) /\ fst (step (OWrite ["f"] 0 [33]) (fresh None [l] 1000)) = Err EOTHER.
 Proof. split; [exact (fresh_inv None _ _)|vm_compute; reflexivity]. Qed.
 
+(* The ROOT as target (path []).  The theorems above quantify over every operation, hence over every path including the
+   empty one; this is the instance, stated because the code treats the root specially (the only node without a parent):
+   SETXATTR / REMOVEXATTR / OPEN for writing have no "upper layer present" test of their own and are refused without an upper
+   layer exactly because copy_node_up -> create_upper_dir fails on the parent-less root (seed C10f changed that). *)
+Theorem C10_root_no_upper : forall s k v m fl, Inv false s ->
+  (exists e, fst (step (OSetxattr [] k v) s) = Err e) /\ (exists e, fst (step (ORemovexattr [] k) s) = Err e) /\
+  (exists e, fst (step (OChmod [] m) s) = Err e) /\ (exists e, fst (step (OTruncate [] m) s) = Err e) /\
+  (of_readonly fl = false -> exists e, fst (step (OOpen [] fl) s) = Err e) /\
+  lowers (run_op (OSetxattr [] k v) s) = lowers s /\ lowers (run_op (ORemovexattr [] k) s) = lowers s /\
+  log (run_op (OSetxattr [] k v) s) = log s /\ log (run_op (ORemovexattr [] k) s) = log s.
+Proof. exact root_no_upper. Qed.
+(* non-vacuity, and what the model answers: two lowers whose roots carry a user xattr, no upper layer; then the same requests
+   with an upper layer: they change layer 0 only (the root's first backing inode is the upper directory) *)
+Example C10_root_is_covered :
+  let l1 := Dir 493 [("user.k1", [76; 49])] [("a", File 1 420 [104; 105] [])] in
+  let l2 := Dir 457 [("user.k1", [76; 50])] [("d", Dir 493 [] [])] in
+  let s := load_all (fresh None [l1; l2] 1000) in
+  Inv false s /\
+  fst (step (OSetxattr [] "user.k1" [112]) s) = Err EOTHER /\ fst (step (ORemovexattr [] "user.k1") s) = Err EOTHER /\
+  fst (step (OChmod [] 448) s) = Err EROFS /\ fst (step (OTruncate [] 0) s) = Err EROFS /\
+  fst (step (OOpen [] OF_W) s) = Err EOTHER /\ fst (step (OMkdir ["e"] 493) s) = Err EROFS /\
+  fst (step (OGetxattr [] "user.k1") s) = Ok "4c31" /\
+  lowers (run [OSetxattr [] "user.k1" [112]; ORemovexattr [] "user.k1"; OChmod [] 448; OMkdir ["e"] 493; OUnlink ["a"]] s) = [l1; l2] /\
+  let u := Dir 488 [] [] in
+  let s1 := run [OSetxattr [] "user.k1" [112]; OChmod [] 448] (load_all (fresh (Some u) [l1; l2] 1000)) in
+  log s1 = [0; 0]%nat /\ lowers s1 = [l1; l2] /\ upper s1 = Some (Dir 448 [("user.k1", [112])] []).
+Proof.
+  cbv zeta. split; [apply (proj1 (load_all_inv false _ (fresh_inv None _ _)))|].
+  vm_compute. repeat split.
+Qed.
+
 Print Assumptions C10_scan_is_merge.
 Print Assumptions C10_op_refines_refuted.
 Print Assumptions C10_op_refines_partial.
@@ -539,6 +807,18 @@ Print Assumptions C10_op_refines_fragments_history.
 Print Assumptions C10_op_refines_enoent.
 Print Assumptions C10_op_refines_eexist.
 Print Assumptions C10_op_refines_rmdir_fails.
+Print Assumptions C10_op_refines_readonly.
+Print Assumptions C10_op_refines_readable.
+Print Assumptions C10_op_refines_fails_more.
+Print Assumptions C10_unlink_below_nondir_disagrees.
+Print Assumptions C10_unlink_lower_dir_disagrees.
+Print Assumptions C10_refines_everywhere_refuted.
+Print Assumptions C10_op_refines_dattr_more.
+Print Assumptions C10_op_refines_rmdir_low.
+Print Assumptions C10_op_refines_cu_wh.
+Print Assumptions C10_op_refines_symlink.
+Print Assumptions C10_op_refines_link_cu.
+Print Assumptions C10_op_refines_link_file.
 Print Assumptions C10_ordinary_fs_respects_teq.
 Print Assumptions C10_merge_update.
 Print Assumptions C10_merge_file_change.
@@ -546,3 +826,4 @@ Print Assumptions C10_fresh_invariant.
 Print Assumptions C10_lowers_untouched.
 Print Assumptions C10_lowers_untouched_history.
 Print Assumptions C10_no_upper_ro.
+Print Assumptions C10_root_no_upper.
